@@ -104,6 +104,12 @@ func vfFaultScenarios(tier string) []*vfRouteScenario {
 	}}
 	add("1x2-breakT", 1, 2, two, 0, 1, "breakT")
 	add("1x2-breakS", 1, 2, two, 0, 1, "breakS", "breakSin")
+	// after the reconnect only part of the unconfirmed tasks has been resent when a target confirms old deliveries
+	add("1x2-breakS-3tasks", 1, 2, [][]vfBatch{{
+		{IDs: []int64{10}, Tgt: []int{1}, High: 11},
+		{IDs: []int64{11}, Tgt: []int{2}, High: 12},
+		{IDs: []int64{12}, Tgt: []int{1}, High: 13},
+	}}, 0, 1, "breakS")
 	add("1x1-any-fault", 1, 1, [][]vfBatch{{
 		{IDs: []int64{10}, Tgt: []int{1}, High: 11},
 		{IDs: []int64{11}, Tgt: []int{1}, High: 12},
